@@ -159,6 +159,7 @@ pub fn run(tier: &str, seed: u64, s: &mut Sink) {
     let mut seen = std::collections::HashSet::new();
     let t = tier.to_string();
     reemit(s, &mut seen, "c10", capture(|x| c10::run(&t, seed, x)), 1);
-    reemit(s, &mut seen, "c09", capture(|x| c09::run(&t, seed, x)), if thorough { 1 } else { 2 });
-    reemit(s, &mut seen, "c11", capture(|x| c11::run(&t, seed, x)), if thorough { 1 } else { 3 });
+    // quick tier: every C10 case, every 6th C09 case (large simulated events), every 4th C11 case
+    reemit(s, &mut seen, "c09", capture(|x| c09::run(&t, seed, x)), if thorough { 1 } else { 6 });
+    reemit(s, &mut seen, "c11", capture(|x| c11::run(&t, seed, x)), if thorough { 1 } else { 4 });
 }
